@@ -411,7 +411,7 @@ func errClass(s string) string {
 	}
 	for _, p := range [][2]string{
 		{"proof hash is not correct", "proof-hash"}, {"empty proof", "proof-empty"}, {"proof verify failed", "proof-rule"},
-		{"insufficient balance", "fee"}, {"not sufficient funds", "funds"}, {"not such method", "no-method"},
+		{"insufficient balance", "fee"}, {"not sufficient funds", "funds"}, {"invalid transfer amount", "bad-amount"}, {"not such method", "no-method"},
 		{"parse args", "parse-args"}, {"get bolt contract", "no-contract"}, {"empty transaction data", "empty-data"},
 		{"wrong vm type", "wrong-vm"}, {"invalid signature", "bad-sig"}, {"reflect:", "reflect"}, {"runtime error", "runtime"},
 		{"call error:", "call-error"},
@@ -574,6 +574,13 @@ func (e *execEngine) query(ws []string) string {
 			b = new(big.Int).Add(new(big.Int).Sub(b, init), g)
 		}
 		return b.String()
+	case "bals":
+		var ps []string
+		names := append(append([]string{}, worldUsers...), "ca1", "ca2", "ca3", "adm0", "adm1", "adm2", "adm3")
+		for _, a := range names {
+			ps = append(ps, a+"="+e.query([]string{"bal", a}))
+		}
+		return strings.Join(ps, " ")
 	case "nonce":
 		return fmt.Sprint(n.ldg.Copy().GetNonce(resolveAddr(ws[1])))
 	case "svc":
